@@ -68,7 +68,12 @@ func NewStore() *recstore.Store { return recstore.New(ring.GetCodec()) }
 // StartRing starts a real ring client on the store. Must be called in a bubble
 // (or with a real clock); the returned stop function terminates it.
 func StartRing(cfg ring.Config, store kv.Client, key string) (*ring.Ring, func(), error) {
-	r, err := ring.NewWithStoreClientAndStrategy(cfg, "verif", key, store, ring.NewDefaultReplicationStrategy(), nil, log.NewNopLogger())
+	return StartRingWithStrategy(cfg, store, key, ring.NewDefaultReplicationStrategy())
+}
+
+// StartRingWithStrategy is StartRing with a caller-supplied replication strategy (a callback boundary inside lookups).
+func StartRingWithStrategy(cfg ring.Config, store kv.Client, key string, strategy ring.ReplicationStrategy) (*ring.Ring, func(), error) {
+	r, err := ring.NewWithStoreClientAndStrategy(cfg, "verif", key, store, strategy, nil, log.NewNopLogger())
 	if err != nil {
 		return nil, nil, err
 	}
